@@ -1,6 +1,7 @@
 package main
 
 import (
+	"regexp"
 	"os"
 	"fmt"
 	"go/token"
@@ -546,7 +547,11 @@ func (e *Engine) vspecCall(st *State, fr *Frame, name string, args []Val) ([]Out
 			// a quantifier nested in another one and depending on its variable cannot be named by a constant
 			return one(all)
 		}
+		if q, ok := lookupNamedQ(all); ok {
+			return one(q)
+		}
 		qf := &Term{Leaf: fresh("qf"), W: 0, QDef: all}
+		rememberNamedQ(all, qf)
 		registerQFacts(qf, bv, guarded, s2.trace.reads)
 		return one(qf)
 	case "Seen16":
@@ -1074,4 +1079,37 @@ func (e *Engine) loopMayWriteGhost(fn *ssa.Function, h *ssa.BasicBlock, fx *loop
 		body = append(body, b)
 	}
 	return blocksMay(body, 0)
+}
+
+// Named quantified formulas are shared: the same formula (up to the names of its bound variables) evaluated twice
+// — in a caller's requires and again as a callee's precondition at a call — gets the same symbol, so that the
+// obligation is closed propositionally.
+var namedQ = map[string]*Term{}
+
+var boundNameRe = regexp.MustCompile(`(^|[^a-z])(k![0-9]+)`)
+
+func canonQ(t *Term) string {
+	s := t.String()
+	names := map[string]string{}
+	return boundNameRe.ReplaceAllStringFunc(s, func(m string) string {
+		i := strings.Index(m, "k!")
+		n := m[i:]
+		if _, ok := names[n]; !ok {
+			names[n] = fmt.Sprintf("k?%d", len(names))
+		}
+		return m[:i] + names[n]
+	})
+}
+
+func lookupNamedQ(all *Term) (*Term, bool) {
+	qfMu.Lock()
+	defer qfMu.Unlock()
+	q, ok := namedQ[canonQ(all)]
+	return q, ok
+}
+
+func rememberNamedQ(all, qf *Term) {
+	qfMu.Lock()
+	defer qfMu.Unlock()
+	namedQ[canonQ(all)] = qf
 }
